@@ -227,7 +227,7 @@ def model(m, op, r):
             return ok(m, 0) + (err() if (old == '' or win is None) else [])
         if old == '' or win is None:
             return err()
-        aligned = bool(op['ba'])
+        aligned = bool(r.get('_opt_ba')) if op['ba'] is None else bool(op['ba'])
         ms = greedy(all_matches(m, old, win[0], win[1], aligned), len(old))
         if count is not None:
             ms = ms[:count]
@@ -451,10 +451,13 @@ def run(case):
     successes = 0
     nt_single = False
     labels = []
+    opt_ba = bool(case.get('opt_ba'))
+    bs.options.bytealigned = opt_ba
     for k, op in enumerate(case['steps']):
         if len(m) > MAX_LEN:
             break   # self-appends / repeats grow exponentially; the rest of such a sequence adds nothing
         r, objs = resolve(op, m)
+        r['_opt_ba'] = opt_ba
         outs = model(m, op, r)
         res = attempt(call_impl, x, op, r, objs)
         if is_raised(res) and isinstance(res.exc, Violation):
@@ -651,7 +654,7 @@ def single_case(names):
                 init = draw(bits_of_len(8 * draw(st.integers(0, 24)) + draw(st.sampled_from([0, 0, 0, 1, 7]))))
         else:
             init = draw(bits_st(max_len=mx))
-        return {'cls': draw(mcls_st), 'init': init, 'steps': [draw(op_st(names))]}
+        return {'cls': draw(mcls_st), 'init': init, 'steps': [draw(op_st(names))], 'opt_ba': draw(st.sampled_from([False, False, False, True]))}
     return f
 
 
@@ -663,7 +666,7 @@ def seq_case(draw, tier):
     names = ALL_OPS + ['insert', 'overwrite', 'set', 'invert', 'reverse', 'rol', 'ror', 'byteswap', 'set_slice_bits', 'replace', 'append']
     steps = draw(st.lists(op_st(names), min_size=n, max_size=n))
     steps = [s for s in steps if not (s['op'] == 'imul' and s['n'] > 3)]
-    return {'cls': draw(mcls_st), 'init': init, 'steps': steps}
+    return {'cls': draw(mcls_st), 'init': init, 'steps': steps, 'opt_ba': draw(st.sampled_from([False, False, False, True]))}
 
 
 def selftest():
